@@ -17,6 +17,12 @@ package main
 //   * dead-allocation elimination (generic): `x = new(T)` / `x := S{f: new(T)}` is kept pending; it is
 //     dropped if the next thing that happens to it is a plain assignment `x = e` / `x.f = e`, otherwise it
 //     is materialised before the next effect, use, loop, join or return;
+//   * a call STATEMENT `f(args)` / `x.m(args)` of a function of this package that is not in the spec table is INLINED
+//     (T5; generic): its parameters are bound to the arguments (value semantics), its body is translated in place.
+//     Only loop-free bodies without `return`/`break`/`defer`/`go`/closures, no results, no recursion; the list
+//     `tiedFunctions` names every function whose pointer-level behaviour is the subject of the generated file: the
+//     functions of the spec table and the unexported helpers ALL of whose call sites in the package were inlined
+//     into translated functions (Props/C20: every pointer write of package gem lies in one of them);
 //   * anything else ⇒ the function is refused (stub + `_extracted := false`); so is every caller of it.
 
 import (
@@ -237,6 +243,8 @@ type ghCtx struct {
 	touched []map[types.Object]bool // stack: variables re-bound while translating a region
 	loops   []ghLoop                // enclosing loops with Ctl bodies (innermost last)
 	markers int
+	inl     []*ast.FuncDecl // T5: helpers whose bodies were inlined into this function (their variables are local to them)
+	inlNow  map[string]bool // T5: helpers being inlined right now (recursion guard)
 }
 
 type ghWorld struct {
@@ -249,6 +257,9 @@ type ghWorld struct {
 	active map[string]bool
 	order  []string
 	zeroOK bool
+	// T5: every function of the package (inlining of helpers), and where each helper was inlined
+	allFuncs  map[string]*ast.FuncDecl
+	inlinedIn map[string]map[string]bool // helper ↦ set of spec keys it was inlined into
 }
 
 func (c *ghCtx) fresh() string {
@@ -300,6 +311,9 @@ func (c *ghCtx) popTouched(region ast.Node) []ghVar {
 	for o := range m {
 		if o.Pos() >= region.Pos() && o.Pos() < region.End() {
 			continue // declared inside the region
+		}
+		if c.inlinedLocal(o, region) {
+			continue // T5: a variable of an inlined helper is not visible outside the inlined body
 		}
 		vs = append(vs, ghVar{o, c.name(o), ghType(o.Type())})
 	}
@@ -1201,7 +1215,7 @@ func (c *ghCtx) stmts(list []ast.Stmt, k func() []string) []string {
 			ls = append(ls, c.copyStmt(x)...)
 			return append(ls, rest()...)
 		}
-		gfFail("unsupported call statement")
+		return c.inlineCallStmt(s, x, rest) // T5
 	case *ast.ReturnStmt:
 		if len(s.Results) != 1 {
 			gfFail("return of other than one value")
@@ -1228,6 +1242,127 @@ func (c *ghCtx) stmts(list []ast.Stmt, k func() []string) []string {
 	}
 	gfFail("unsupported statement %T", list[0])
 	return nil
+}
+
+// T5: o is a parameter/local of an inlined helper and `region` is not part of that helper's body
+func (c *ghCtx) inlinedLocal(o types.Object, region ast.Node) bool {
+	for _, fd := range c.inl {
+		if o.Pos() >= fd.Pos() && o.Pos() < fd.End() {
+			return !(region.Pos() >= fd.Pos() && region.End() <= fd.End())
+		}
+	}
+	return false
+}
+
+func ghFuncName(fn *types.Func) string {
+	if r := fn.Type().(*types.Signature).Recv(); r != nil {
+		t := r.Type()
+		if pt, ok := t.(*types.Pointer); ok {
+			t = pt.Elem()
+		}
+		if n, ok := t.(*types.Named); ok {
+			return n.Obj().Name() + "." + fn.Name()
+		}
+	}
+	return fn.Name()
+}
+
+// T5: a call statement of a helper of this package that is not in the spec table: bind the parameters to the
+// arguments (Go's left-to-right evaluation, value semantics) and translate the body in place
+func (c *ghCtx) inlineCallStmt(s *ast.ExprStmt, x *ast.CallExpr, rest func() []string) []string {
+	fn := c.calleeOf(x)
+	if fn == nil || fn.Pkg() == nil || fn.Pkg().Path() != ghPkg {
+		gfFail("unsupported call statement")
+	}
+	key := fn.FullName()
+	if _, isSpec := c.w.specs[key]; isSpec {
+		gfFail("unsupported call statement (result of %s dropped)", key)
+	}
+	fd := c.w.allFuncs[key]
+	if fd == nil || fd.Body == nil {
+		gfFail("call statement of %s, whose body is not available", key)
+	}
+	if c.inlNow[key] {
+		gfFail("recursive helper %s", key)
+	}
+	sig := fn.Type().(*types.Signature)
+	if sig.Results().Len() != 0 || sig.Variadic() {
+		gfFail("helper %s has results or is variadic", key)
+	}
+	bad := ""
+	ast.Inspect(fd.Body, func(m ast.Node) bool {
+		switch m.(type) {
+		case *ast.ReturnStmt, *ast.BranchStmt, *ast.ForStmt, *ast.RangeStmt, *ast.DeferStmt, *ast.GoStmt, *ast.FuncLit,
+			*ast.LabeledStmt, *ast.SwitchStmt, *ast.TypeSwitchStmt, *ast.SelectStmt:
+			bad = fmt.Sprintf("%T", m)
+		}
+		return bad == ""
+	})
+	if bad != "" {
+		gfFail("helper %s is not inlined: its body contains %s", key, bad)
+	}
+	// parameters (receiver first) and the expressions they are bound to
+	var params []types.Object
+	var args []ast.Expr
+	if fd.Recv != nil {
+		se, ok := unparen(x.Fun).(*ast.SelectorExpr)
+		if !ok || len(fd.Recv.List) != 1 || len(fd.Recv.List[0].Names) != 1 {
+			gfFail("helper %s: unnamed receiver", key)
+		}
+		if _, isPtr := sig.Recv().Type().(*types.Pointer); isPtr {
+			gfFail("helper %s has a pointer receiver", key)
+		}
+		params = append(params, c.info.ObjectOf(fd.Recv.List[0].Names[0]))
+		args = append(args, se.X)
+	}
+	i := 0
+	for _, f := range fd.Type.Params.List {
+		if len(f.Names) == 0 {
+			gfFail("helper %s: unnamed parameter", key)
+		}
+		for _, n := range f.Names {
+			if i >= len(x.Args) {
+				gfFail("helper %s: argument count", key)
+			}
+			params = append(params, c.info.ObjectOf(n))
+			args = append(args, x.Args[i])
+			i++
+		}
+	}
+	if i != len(x.Args) {
+		gfFail("helper %s: argument count", key)
+	}
+	ls := c.settle(s)
+	for j, o := range params {
+		if o == nil || o.Name() == "_" {
+			gfFail("helper %s: unnamed parameter", key)
+		}
+		k := ghKindOf(o.Type())
+		switch k {
+		case khInt, khBool, khRunes, khInts, khPtr, khGStr:
+		default:
+			gfFail("helper %s: parameter %s of an unsupported type", key, o.Name())
+		}
+		v := c.rvalue(args[j], k)
+		ls = append(ls, c.take()...)
+		ls = append(ls, c.bind(o, v))
+	}
+	ls = append(ls, fmt.Sprintf("-- (inlined: %s)", ghFuncName(fn)))
+	c.inl = append(c.inl, fd)
+	if c.inlNow == nil {
+		c.inlNow = map[string]bool{}
+	}
+	c.inlNow[key] = true
+	if c.w.inlinedIn[key] == nil {
+		c.w.inlinedIn[key] = map[string]bool{}
+	}
+	c.w.inlinedIn[key][c.spec.key()] = true
+	body := c.stmts(fd.Body.List, func() []string {
+		c.inlNow[key] = false
+		return rest()
+	})
+	c.inlNow[key] = false
+	return append(ls, body...)
 }
 
 func (c *ghCtx) copyStmt(x *ast.CallExpr) []string {
@@ -1613,6 +1748,117 @@ func (w *ghWorld) checkZero() bool {
 	return ok && !bad
 }
 
+// T5: translated functions, plus every unexported helper whose call sites in the whole package are all call
+// statements inside translated (extracted) functions or inside other such helpers (there they were inlined)
+func (w *ghWorld) tiedFunctions() []string {
+	info := w.pkg.TypesInfo
+	covered := map[string]bool{}
+	for key, st := range w.status {
+		if st == "" {
+			covered[key] = true
+		}
+	}
+	// call sites of every function of the package: callee ↦ list of (enclosing function, is a statement)
+	type site struct {
+		in   string
+		stmt bool
+	}
+	sites := map[string][]site{}
+	for key, fd := range w.allFuncs {
+		if fd.Body == nil {
+			continue
+		}
+		stmtCalls := map[*ast.CallExpr]bool{}
+		ast.Inspect(fd.Body, func(m ast.Node) bool {
+			if es, ok := m.(*ast.ExprStmt); ok {
+				if ce, ok := unparen(es.X).(*ast.CallExpr); ok {
+					stmtCalls[ce] = true
+				}
+			}
+			return true
+		})
+		ast.Inspect(fd.Body, func(m ast.Node) bool {
+			switch x := m.(type) {
+			case *ast.CallExpr:
+				var id *ast.Ident
+				switch f := unparen(x.Fun).(type) {
+				case *ast.Ident:
+					id = f
+				case *ast.SelectorExpr:
+					id = f.Sel
+				}
+				if id != nil {
+					if fn, ok := info.ObjectOf(id).(*types.Func); ok && fn.Pkg() != nil && fn.Pkg().Path() == ghPkg {
+						sites[fn.FullName()] = append(sites[fn.FullName()], site{key, stmtCalls[x]})
+					}
+				}
+			}
+			return true
+		})
+	}
+	// uses of a function other than calling it (method values) make it uncoverable
+	escaped := map[string]bool{}
+	for _, f := range w.pkg.Syntax {
+		if strings.HasSuffix(w.pkg.Fset.Position(f.Pos()).Filename, "_test.go") {
+			continue
+		}
+		callFun := map[*ast.Ident]bool{}
+		ast.Inspect(f, func(m ast.Node) bool {
+			if ce, ok := m.(*ast.CallExpr); ok {
+				switch fx := unparen(ce.Fun).(type) {
+				case *ast.Ident:
+					callFun[fx] = true
+				case *ast.SelectorExpr:
+					callFun[fx.Sel] = true
+				}
+			}
+			return true
+		})
+		ast.Inspect(f, func(m ast.Node) bool {
+			if id, ok := m.(*ast.Ident); ok && !callFun[id] {
+				if fn, ok := info.Uses[id].(*types.Func); ok && fn.Pkg() != nil && fn.Pkg().Path() == ghPkg {
+					escaped[fn.FullName()] = true
+				}
+			}
+			return true
+		})
+	}
+	for changed := true; changed; {
+		changed = false
+		for key, fd := range w.allFuncs {
+			if covered[key] || w.specs[key] != nil || fd.Name.IsExported() || escaped[key] || len(w.inlinedIn[key]) == 0 {
+				continue
+			}
+			ok := len(sites[key]) > 0
+			for _, st := range sites[key] {
+				if !st.stmt || !covered[st.in] {
+					ok = false
+				}
+			}
+			if ok {
+				covered[key] = true
+				changed = true
+			}
+		}
+	}
+	// a function of the spec table that was refused keeps its place: its tie then rests on the correspondence
+	// groups alone (`<name>_extracted = false`, as everywhere in the regenerated tie) — but helpers called by it are
+	// not covered (they were not inlined anywhere)
+	for key := range w.specs {
+		covered[key] = true
+	}
+	var out []string
+	for key := range covered {
+		if fd := w.allFuncs[key]; fd != nil {
+			if fn, ok := info.ObjectOf(fd.Name).(*types.Func); ok {
+				out = append(out, ghFuncName(fn))
+			}
+		}
+	}
+	sort.Strings(out)
+	return out
+}
+
 func writeGemCode(dir, repo string) (string, error) {
 	cfg := &packages.Config{Mode: packages.NeedName | packages.NeedSyntax | packages.NeedTypes |
 		packages.NeedTypesInfo | packages.NeedFiles, Dir: repo}
@@ -1628,7 +1874,8 @@ func writeGemCode(dir, repo string) (string, error) {
 		return "", fmt.Errorf("package %s has errors: %v", p.PkgPath, p.Errors[0])
 	}
 	w := &ghWorld{pkg: p, specs: map[string]*ghSpec{}, funcs: map[string]*ast.FuncDecl{}, status: map[string]string{},
-		defs: map[string]string{}, resTy: map[string]ghKind{}, active: map[string]bool{}}
+		defs: map[string]string{}, resTy: map[string]ghKind{}, active: map[string]bool{},
+		allFuncs: map[string]*ast.FuncDecl{}, inlinedIn: map[string]map[string]bool{}}
 	for i := range ghSpecs {
 		w.specs[ghSpecs[i].key()] = &ghSpecs[i]
 	}
@@ -1642,6 +1889,7 @@ func writeGemCode(dir, repo string) (string, error) {
 					if _, want := w.specs[fn.FullName()]; want {
 						w.funcs[fn.FullName()] = fd
 					}
+					w.allFuncs[fn.FullName()] = fd
 				}
 			}
 		}
@@ -1671,6 +1919,16 @@ func writeGemCode(dir, repo string) (string, error) {
 			fmt.Fprintf(&sb, "\ndef %s_extracted : Bool := false\n\n", sp.lean)
 		}
 	}
+	// T5: the functions whose pointer-level behaviour is covered by the definitions above
+	tied := w.tiedFunctions()
+	sb.WriteString("/-- functions of internal/gem whose pointer-level behaviour is the subject of this file: the functions of the translator's\nspec table (translated: `<name>_extracted = true`; refused: tied by the correspondence alone), and the unexported helpers\nall of whose call sites in the package are call statements that were inlined into translated functions -/\ndef tiedFunctions : List String := [")
+	for i, t := range tied {
+		if i > 0 {
+			sb.WriteString(", ")
+		}
+		sb.WriteString(leanStrLit(t))
+	}
+	sb.WriteString("]\n\n")
 	sb.WriteString("end RosedVerif.Gen.GemCode\n")
 	msg := fmt.Sprintf("gemcode=extracted(%d)/refused(%d:%s)", nOK, len(refused), strings.Join(refused, ","))
 	return msg, writeIfChanged(filepath.Join(dir, "GemCode.lean"), sb.String())
